@@ -1,8 +1,10 @@
-(* Extraction of M-STORE (EntRevisions + the CLI apply loop) on top of M-EXEC / M-PEND.
+(* Extraction of M-STORE (EntRevisions + the CLI apply loop) on top of M-EXEC / M-PEND,
+   and of M-STORE-TX (the same store under the per-file transaction multiplexer, C09 stage cli).
    ExtrOcamlBasic only: bool, option, unit, list, prod, sumbool, sumor map to OCaml's;
    nat, positive, N stay inductive. *)
 Require Extraction.
 Require Import ExtrOcamlBasic.
-From Atlas Require Import Base.Bytes Exec.ExecModel Exec.PendingModel Exec.RunModel Exec.StatusModel Exec.StoreModel.
+From Atlas Require Import Base.Bytes Exec.ExecModel Exec.PendingModel Exec.RunModel Exec.StatusModel Exec.StoreModel
+  Exec.TxModel Exec.StoreTxModel.
 Extraction Language OCaml.
-Extraction "model.ml" cli_history cli_apply execute_st read_revisions report.
+Extraction "model.ml" cli_history cli_apply execute_st read_revisions report m_history cli_apply_m.
